@@ -158,9 +158,19 @@ def run_case(case, seed):
         q = lib.qslst
         fill = G.Fill(seed, stream=H * 16 + W)
         nontrivial = True
-        for vcls in ("unit", "byte", "neg", "big", "zero"):
+        for vcls in ("unit", "byte", "neg", "big", "zero", "weak_channel_hi", "weak_channel_lo", "edge_inside", "edge_outside_hi", "edge_outside_lo"):
             base = fill.dyadic((H, W, 3), bits=8, lo=0, hi=256)
-            if vcls == "byte":
+            if vcls.startswith("weak_channel"):  # wide-range image with one weak channel that alone would "look normalised"
+                base = np.floor(base * 255)
+                weak = fill.dyadic((H, W), bits=8, lo=0, hi=256) * (1.4 if vcls.endswith("hi") else 0.4) - (0.0 if vcls.endswith("hi") else 0.3)
+                weak.flat[0] = 1.4 if vcls.endswith("hi") else -0.3
+                base[..., 2] = weak
+                base[0, 0, 0] = 200.0
+            elif vcls.startswith("edge"):  # the documented window [-0.5, 1.5] exactly, and just outside it
+                base = base * 2.0 - 0.5
+                base.flat[0] = 1.5 + (2.0 ** -20 if vcls == "edge_outside_hi" else 0.0)
+                base.flat[-1] = -0.5 - (2.0 ** -20 if vcls == "edge_outside_lo" else 0.0)
+            elif vcls == "byte":
                 base = np.floor(base * 255)
             elif vcls == "neg":
                 base = base - 3.0
@@ -183,6 +193,11 @@ def run_case(case, seed):
                 ok, backc = call(q.quat_to_rgb, Q, True)
                 if vcls in ("unit", "zero") and (not ok or not np.array_equal(backc, base)):
                     fails.append(fail("rgb_round_trip_clip_unit_range", f"{vcls}", **tags))
+                # documented clip=True (also the default): clip to [0,1] iff the WHOLE colour part lies in [-0.5, 1.5]; otherwise untouched
+                model = np.clip(base, 0.0, 1.0) if (base.size and base.max() <= 1.5 and base.min() >= -0.5) else base
+                okd, backd = call(q.quat_to_rgb, Q)
+                if not ok or not okd or not np.array_equal(backc, model) or not np.array_equal(backd, model):
+                    fails.append(fail("rgb_round_trip_clip_documented", f"{vcls}: quat_to_rgb(clip=True / default) differs from the documented whole-image rule", **tags))
                 ok, parts = call(q.split_quat_channels, Q)
                 ok2, st = call(lambda: q.stack_quat_channels(*parts)) if ok else (False, None)
                 evals += 1
